@@ -194,7 +194,7 @@ func (d *PathDecoder) decodeReferenceTargetsForBody(body hcl.Body, parentBlock *
 
 			bodyRef.Type = bodyToDataType(bSchema.Type, bSchema.Body)
 
-			sort.Sort(bodyRef.NestedTargets)
+			sort.Stable(bodyRef.NestedTargets)
 			refs = append(refs, bodyRef)
 		}
 
@@ -249,14 +249,14 @@ func (d *PathDecoder) decodeReferenceTargetsForBody(body hcl.Body, parentBlock *
 			})
 		}
 
-		sort.Sort(bodyRef.NestedTargets)
+		sort.Stable(bodyRef.NestedTargets)
 	}
 
 	for _, tb := range bodySchema.TargetableAs {
 		refs = append(refs, decodeTargetableBody(body, parentBlock, tb))
 	}
 
-	sort.Sort(refs)
+	sort.Stable(refs)
 
 	return refs
 }
@@ -501,7 +501,7 @@ func (d *PathDecoder) collectInferredReferenceTargetsForBody(addr lang.Address, 
 		blockRef.NestedTargets = d.collectInferredReferenceTargetsForBody(
 			blockAddr, bAddrSchema, blk.Body, bCollection.Schema.Body, selfRefBodyRangePtr, blockRef.LocalAddr)
 
-		sort.Sort(blockRef.NestedTargets)
+		sort.Stable(blockRef.NestedTargets)
 		refs = append(refs, blockRef)
 	}
 
@@ -546,7 +546,7 @@ func (d *PathDecoder) collectInferredReferenceTargetsForBody(addr lang.Address, 
 			elemRef.NestedTargets = d.collectInferredReferenceTargetsForBody(
 				elemAddr, bAddrSchema, b.Body, bCollection.Schema.Body, selfRefBodyRangePtr, elemRef.LocalAddr)
 
-			sort.Sort(elemRef.NestedTargets)
+			sort.Stable(elemRef.NestedTargets)
 			blockRef.NestedTargets = append(blockRef.NestedTargets, elemRef)
 
 			if i == 0 {
@@ -564,7 +564,7 @@ func (d *PathDecoder) collectInferredReferenceTargetsForBody(addr lang.Address, 
 				}
 			}
 		}
-		sort.Sort(blockRef.NestedTargets)
+		sort.Stable(blockRef.NestedTargets)
 		refs = append(refs, blockRef)
 	}
 
@@ -648,7 +648,7 @@ func (d *PathDecoder) collectInferredReferenceTargetsForBody(addr lang.Address, 
 
 			elemRef.NestedTargets = d.collectInferredReferenceTargetsForBody(
 				elemAddr, bAddrSchema, b.Body, bCollection.Schema.Body, selfRefBodyRangePtr, elemRef.LocalAddr)
-			sort.Sort(elemRef.NestedTargets)
+			sort.Stable(elemRef.NestedTargets)
 			blockRef.NestedTargets = append(blockRef.NestedTargets, elemRef)
 
 			if len(blockRef.NestedTargets) == 1 {
@@ -666,7 +666,7 @@ func (d *PathDecoder) collectInferredReferenceTargetsForBody(addr lang.Address, 
 				}
 			}
 		}
-		sort.Sort(blockRef.NestedTargets)
+		sort.Stable(blockRef.NestedTargets)
 		refs = append(refs, blockRef)
 	}
 
